@@ -88,6 +88,13 @@ CHECKS = {
    note="Differential against the implementation itself on a fresh instance: a defect that shows identically on a fresh service is out of scope here (C09 owns routing correctness). One probe per history.",
    technique="property-based testing over request histories (stateful generation) with a metamorphic oracle: history-run vs fresh-service run of the same request",
    design_ref="DESIGN.md §5 C11"),
+ "C09": dict(
+   engine="pbt",
+   category="exploration",
+   text="A route table is generated as an AST (up to 3 levels: scopes with static / dynamic / regex prefixes incl. empty and trailing-slash forms, resources with one pattern or a list of two incl. tails, 0-2 routes each with optional method and guards, resource/scope guards from Header, Host, Method, Not, Any, optional resource / scope / App default services, Marker app_data at app / scope / resource level) and built twice: into a real actix-web App (actix_web::test::init_service) and into a reference router written in the harness - committed descent in registration order using C10's reference pattern matcher on the partially percent-decoded path (C10's reference decoder, %2F %25 %2B kept), guards evaluated by a reference interpreter. 8 requests per table: paths derived from the table's own pattern chains (values from each segment's language) with 12 perturbations (trailing slash, extra segment, dropped char, empty segment, %61 %62 %2F escapes), methods GET/POST/PUT, x-g and Host headers. Oracle: the handler identity reported by the app (every handler and default service returns its node id), its match_info pairs and the innermost Marker equal the model's; 404 / 405 exactly where the model says. 6.4*10^4 (quick) to 1.3*10^6 (thorough) requests.",
+   note="A scope without its own default service falls back to the App's default service, as documented on Scope::default_service (intermediate scopes' defaults are not inherited); the model follows the documentation. match_pattern/match_name are not compared here. Middleware-level rewriting (NormalizePath) and external resources / url_for are not covered.",
+   technique="model-based differential property testing: generated route-table ASTs built into the real App and into a reference router; requests derived from the table's own grammar",
+   design_ref="DESIGN.md §5 C09"),
  "C01": dict(
    engine="simnet",
    category="exploration",
